@@ -608,32 +608,20 @@ def atof32_check(rep, mod):
     rep.inst('R-ATOF32', fname, 'value is integer part + fraction / power of ten', ok, P.where(),
              'the result is not (float)integer + (double)fraction / (double)10^n')
 
-    # early return: taken only for characters that cannot start a literal, and it still reports the end
-    rets = f.returns()
-    rej = []
-    if len(rets) == 1 and rets[0].ops and rets[0].ops[0].k == 'inst' and f.insts[rets[0].ops[0].id].op == 'phi':
-        for (bb, v) in f.insts[rets[0].ops[0].id].incoming:
-            if v.k == 'cf' and not f.dominates_block(S0.block, f.bmap[bb]):
-                rej.append(f.bmap[bb])
-
-    def reject_hook(interp, st, i, fn):
-        if interp.recording > 0 or st.ghost.get('scanned'):
-            return
-        ch = st.ghost.get('first_ch')
-        if ch is None:
-            return
-        for (nm, lo, hi) in (('\'+\'', 43, 43), ('\'-\'', 45, 45), ('\'.\'', 46, 46), ('a digit', 48, 57)):
-            ok = feasible(interp, st, [(lo, ch), (ch, hi)]) is None
-            sink.inst('R-ATOF32', fname, 'a literal starting with %s is not rejected' % nm, ok, i.where(),
-                      'the early return (result 0, nothing parsed) is reachable when the first character is %s' % nm)
-    for b in rej:
-        first = [i for i in b.insts if i.op not in ('phi', 'dbg')]
-        if first and first[0] is not b.term:
-            it.pre[(f.name, first[0].id)] = reject_hook
+    # early return (nothing scanned): taken only for characters that cannot start a literal
+    class RunA(Run7):
+        def check_return(self, fn, spec, env, struct_params, T, rv, posts=None):
+            ch = T.ghost.get('first_ch')
+            if fn is f and not T.ghost.get('scanned') and ch is not None:
+                for (nm, lo, hi) in (('\'+\'', 43, 43), ('\'-\'', 45, 45), ('\'.\'', 46, 46), ('a digit', 48, 57)):
+                    ok = feasible(it, T, [(lo, ch), (ch, hi)]) is None
+                    sink.inst('R-ATOF32', fname, 'a literal starting with %s is not rejected' % nm, ok, where(f),
+                              'the early return (result 0, nothing parsed) is reachable when the first character is %s' % nm)
+            Run7.check_return(self, fn, spec, env, struct_params, T, rv, posts)
     post = [dict(name='end pointer is set on every path', then=['ghost_end_set_post == 1']),
             dict(name='end pointer is the scan position', when=['ghost_end_set_post == 1'],
                  then=['ghost_end_arg_post == 0', 'ghost_end_off_post == ghost_last_off_post'])]
-    run = Run7(it, [])
+    run = RunA(it, [])
     run.run(f.name, spec7(setup=combine(cstr_params(0), setup), extents={'arg1': '8'}, post=post, outptrs={1: 'end'}))
     import_obligations(rep, 'R-ATOF32', it, run)
     it2 = InterpF(mod)
